@@ -397,6 +397,29 @@ func init() {
 		id := st.alloc(&ArrV{e})
 		return ret1(st, SliceV{obj: id, len: len(e), cap: len(e)})
 	})
+	reg("vResetStdio", func(w *Worker, st *State, args []Value, fv *FuncV, depth int) []Outcome {
+		// a fresh process: new (open, rewound) handles for the standard streams, stdin holds the given bytes
+		src := append([]Value{}, w.sliceElems(st, args[0].(SliceV))...)
+		osp := w.eng.ssaPkgs["os"]
+		for _, nm := range []string{"Stdin", "Stdout", "Stderr"} {
+			g := osp.Members[nm].(*ssa.Global)
+			name := StrV{s: "/dev/" + strings.ToLower(nm)}
+			var content []Value
+			if nm == "Stdin" {
+				content = src
+			}
+			obj := st.alloc(&ArrV{content})
+			idx := -1
+			for i, e := range st.fs {
+				if e.name.isConcrete() && e.name.s == name.s {
+					idx = i
+				}
+			}
+			st.fsPut(idx, name, obj)
+			st.set(w.eng.globals[g], w.newHandle(st, name, obj))
+		}
+		return ret1(st, nil)
+	})
 	reg("vIsModel", func(w *Worker, st *State, args []Value, fv *FuncV, depth int) []Outcome {
 		return ret1(st, tTrue)
 	})
